@@ -915,6 +915,7 @@ _dispatch_lane_non_barrier_complete_try_lock(dispatch_lane_t dq,
 	if ((full_width & DISPATCH_QUEUE_WIDTH_MASK) ==
 			DISPATCH_QUEUE_WIDTH_FULL_BIT) {
 		new_state = full_width;
+		DISPATCH_VERIF_PROBE(4);
 		new_state &= ~DISPATCH_QUEUE_DIRTY;
 		new_state |= owner_self;
 	} else if (_dq_state_is_dirty(old_state)) {
@@ -1158,6 +1159,7 @@ _dispatch_non_barrier_waiter_redirect_or_wake(dispatch_lane_t dq,
 	uint64_t old_state;
 
 	dispatch_assert(!(dsc->dc_flags & DC_FLAG_BARRIER));
+	DISPATCH_VERIF_PROBE(2);
 
 again:
 	old_state = os_atomic_load2o(dq, dq_state, relaxed);
@@ -1283,6 +1285,7 @@ _dispatch_lane_drain_barrier_waiter(dispatch_lane_t dq,
 
 	next_owner = _dispatch_lock_value_from_tid(dsc->dsc_waiter);
 	next_dc = _dispatch_queue_pop_head(dq, dc);
+	DISPATCH_VERIF_PROBE(1);
 
 transfer_lock_again:
 	os_atomic_rmw_loop2o(dq, dq_state, old_state, new_state, release, {
@@ -1609,6 +1612,7 @@ static void
 __DISPATCH_WAIT_FOR_QUEUE__(dispatch_sync_context_t dsc, dispatch_queue_t dq)
 {
 	uint64_t dq_state = _dispatch_wait_prepare(dq);
+	DISPATCH_VERIF_PROBE(16);
 	if (unlikely(_dq_state_drain_locked_by(dq_state, dsc->dsc_waiter))) {
 		DISPATCH_CLIENT_CRASH((uintptr_t)dq_state,
 				"dispatch_sync called on queue "
@@ -2897,6 +2901,7 @@ static void
 _dispatch_lane_suspend_slow(dispatch_lane_t dq)
 {
 	uint64_t old_state, new_state, delta;
+	DISPATCH_VERIF_PROBE(5);
 
 	_dispatch_queue_sidelock_lock(dq);
 
@@ -2955,6 +2960,7 @@ static void
 _dispatch_lane_resume_slow(dispatch_lane_t dq)
 {
 	uint64_t old_state, new_state, delta;
+	DISPATCH_VERIF_PROBE(6);
 
 	_dispatch_queue_sidelock_lock(dq);
 
@@ -3688,6 +3694,7 @@ first_iteration:
 	return dc ? dq->do_targetq : NULL;
 
 out_with_no_width:
+	DISPATCH_VERIF_PROBE(3);
 	*owned_ptr &= DISPATCH_QUEUE_ENQUEUED | DISPATCH_QUEUE_ENQUEUED_ON_MGR;
 	_dispatch_thread_frame_pop(&dtf);
 	return DISPATCH_QUEUE_WAKEUP_WAIT_FOR_EVENT;
@@ -5081,6 +5088,7 @@ _dispatch_lane_concurrent_push(dispatch_lane_t dq, dispatch_object_t dou,
 	if (dq->dq_items_tail == NULL &&
 			!_dispatch_object_is_waiter(dou) &&
 			!_dispatch_object_is_barrier(dou) &&
+			!DISPATCH_VERIF_UNUSUAL(2) &&
 			_dispatch_queue_try_acquire_async(dq)) {
 		return _dispatch_continuation_redirect_push(dq, dou, qos);
 	}
